@@ -36,6 +36,61 @@ def bound_call(body, failures, what):
     return which.split("_")[0], ok
 
 
+def block_after(body, open_idx):
+    """(text inside the braces opening at body[open_idx], index after the closing brace)"""
+    depth, j = 0, open_idx
+    while j < len(body):
+        if body[j] == "{":
+            depth += 1
+        elif body[j] == "}":
+            depth -= 1
+            if depth == 0:
+                return body[open_idx + 1:j], j + 1
+        j += 1
+    return None, len(body)
+
+
+def find_shape_ok(fnd):
+    """_find_sink, in either shape
+         A: std::shared_ptr<Sink> r; auto it = <bound>; if (it != end && it->sink_id == target) { r = it->sink_ptr.lock(); } return r;
+         B: auto it = <bound>; if (it != end && it->sink_id == target) { return it->sink_ptr.lock(); } return nullptr;
+       what matters: the end test and the name equality test guard the lock() (evaluated before it), there is exactly one lock()
+       in the function, on the entry the bound points at, its result is what is returned on that path, and null otherwise."""
+    if not fnd:
+        return False
+    fnd = re.sub(r"\[\s*\]\s*\([^)]*\)\s*\{[^{}]*\}", "<cmp>", fnd)   # the comparator lambda (checked by bound_call)
+    mi = re.search(r"auto\s+(\w+)\s*=\s*std::(?:lower|upper)_bound\s*\(", fnd)
+    if not mi:
+        return False
+    it = mi.group(1)
+    if len(re.findall(r"\block\s*\(", fnd)) != 1 or len(re.findall(r"\bif\s*\(", fnd)) != 1:
+        return False
+    end = r"(?:std::end\s*\(\s*_sinks\s*\)|_sinks\.end\s*\(\s*\))"
+    eq = r"(?:%s->sink_id\s*==\s*\w+|\w+\s*==\s*%s->sink_id)" % (it, it)
+    mc = re.search(r"\bif\s*\(\s*(?:%s\s*!=\s*%s|%s\s*!=\s*%s)\s*&&\s*%s\s*\)\s*\{" % (it, end, end, it, eq), fnd)
+    if not mc or mc.start() < mi.start():
+        return False
+    then, after_idx = block_after(fnd, mc.end() - 1)
+    if then is None:
+        return False
+    before, after = fnd[:mc.start()], fnd[after_idx:]
+    if re.match(r"\s*else\b", after):
+        return False
+    lock = r"%s->sink_ptr\.lock\s*\(\s*\)" % it
+    null = r"(?:nullptr|\{\s*\}|std::shared_ptr\s*<\s*Sink\s*>\s*(?:\{\s*\}|\(\s*\)))"
+    # shape B
+    if re.fullmatch(r"\s*return\s+%s\s*;\s*" % lock, then):
+        return bool(re.fullmatch(r"\s*return\s+%s\s*;\s*" % null, after)) and "return" not in before
+    # shape A
+    ma = re.fullmatch(r"\s*(\w+)\s*=\s*%s\s*;\s*" % lock, then)
+    if ma:
+        r_ = ma.group(1)
+        decl = re.search(r"std::shared_ptr\s*<\s*Sink\s*>\s+%s\s*(?:\{\s*\}|=\s*nullptr|\{\s*nullptr\s*\})?\s*;" % r_, before)
+        assigns = re.findall(r"\b%s\s*=[^=]" % r_, fnd)
+        return bool(decl) and len(assigns) == 1 and "return" not in before and bool(re.fullmatch(r"\s*return\s+%s\s*;\s*" % r_, after))
+    return False
+
+
 def extract(repo, failures):
     src = strip_cpp_comments(read(repo, "include/quill/core/SinkManager.h"))
     fnd = func_body(src, r"_find_sink\s*\(\s*std::string\s+const&\s*(\w+)\s*\)\s*const\s*(?:noexcept)?\s*\{")
@@ -46,10 +101,7 @@ def extract(repo, failures):
     d = {}
     d["findAt"], d["findCmpOK"] = bound_call(fnd, failures, "_find_sink")
     d["insertAt"], d["insertCmpOK"] = bound_call(ins, failures, "_insert_sink")
-    # _find_sink: `if (search_it != std::end(_sinks) && search_it->sink_id == target) sink = search_it->sink_ptr.lock();`
-    d["findTestsNameThenLocks"] = bool(fnd and re.search(
-        r"if\s*\(\s*search_it\s*!=\s*(?:std::end\s*\(\s*_sinks\s*\)|_sinks\.end\s*\(\s*\))\s*&&\s*search_it->sink_id\s*==\s*\w+\s*\)\s*\{?\s*"
-        r"sink\s*=\s*search_it->sink_ptr\.lock\s*\(\s*\)\s*;", fnd)) and bool(re.search(r"return\s+sink\s*;", fnd or ""))
+    d["findTestsNameThenLocks"] = find_shape_ok(fnd)
     # _insert_sink: `_sinks.insert(search_it, SinkInfo{sink_name, sink});`
     d["insertsAtBound"] = bool(ins and re.search(r"_sinks\.insert\s*\(\s*search_it\s*,\s*SinkInfo\s*\{\s*sink_name\s*,\s*sink\s*\}\s*\)\s*;", ins))
     # create_or_get_sink: find; `if (!sink) { … make_shared … _insert_sink(sink_name, sink); } return sink;`, under the lock
